@@ -182,6 +182,22 @@ def _pure_text_helper(ctx, n: ast.Name, call: ast.Call) -> bool:
     return True
 
 
+def _known_literal_name(n: ast.Name, literal_lists: Set[str]) -> bool:
+    """A condition that holds at this use says `key in <literal list of names>`."""
+    from ..util import atoms, known_conditions
+
+    top = n
+    while getattr(top, "_parent", None) is not None and not isinstance(top, (ast.FunctionDef, ast.AsyncFunctionDef)):
+        top = top._parent
+    for t, pol in known_conditions(n, top):
+        for a, p in atoms(t, pol):
+            if p and isinstance(a, ast.Compare) and len(a.ops) == 1 and isinstance(a.ops[0], ast.In) and norm(a.left) == n.id:
+                r = a.comparators[0]
+                if (isinstance(r, ast.Name) and r.id in literal_lists) or (isinstance(r, (ast.Tuple, ast.List, ast.Set)) and all(isinstance(e, ast.Constant) for e in r.elts)):
+                    return True
+    return False
+
+
 def _known_host_int(n: ast.Name) -> bool:
     """The key is, at this use, a host int: a condition on the way tested type(key) is int / isinstance(key, int).
     A number cannot name a host attribute or an entry of an implementation dictionary."""
@@ -212,6 +228,12 @@ def _key_use(n: ast.Name, p: Optional[ast.AST], literal_lists: Set[str]) -> Tupl
         gp = getattr(p, "_parent", None)
         if isinstance(gp, ast.Compare) and len(gp.ops) == 1 and isinstance(gp.ops[0], (ast.Is, ast.IsNot, ast.Eq, ast.NotEq)) and all(isinstance(o, ast.Name) and o.id in ("int", "float", "str", "bool") for o in [gp.left] + list(gp.comparators) if o is not p):
             return True, "type-test"
+    if _known_literal_name(n, literal_lists):
+        # the key is one of a literal list of names here: it cannot select anything the list does not name
+        if isinstance(p, ast.Subscript) and p.slice is n and isinstance(p.value, ast.Attribute):
+            return True, "table-of-listed-names"
+        if isinstance(p, ast.Call) and n in p.args and isinstance(p.func, ast.Attribute) and p.func.attr in ("get", "pop", "setdefault") and isinstance(p.func.value, ast.Attribute):
+            return True, "table-of-listed-names"
     if _known_host_int(n):
         if isinstance(p, ast.Compare):
             return True, "number-compare"
@@ -1631,3 +1653,60 @@ def rule_optional_attributes_mapped(ctx, rep, rid: str) -> None:
                 else:
                     rep.bad(rid, key, f"{f.qual} hands `{norm(v)}` to the script as it is ({short(node, 50)}): the attribute holds the host's None where there is nothing (the end of a prototype chain), and None is a value of no JavaScript type (typeof 'undefined', but !== undefined and != null)", f"{f.module.rel}:{node.lineno}")
     rep.ok(rid, "optional-attributes", {"attributes": sorted(opt), "direct_hand_overs_examined": n})
+
+
+# ---- what was converted for the embedder does not come back into the script -----------------------------------
+def python_valued_functions(ctx) -> Dict[int, Tuple[Func, str]]:
+    """Functions whose result is a value converted FOR THE EMBEDDER: some return hands out the result of the
+    JS-to-Python converter (a function named like `_to_python`, found by shape: it maps UNDEFINED/NULL to None and
+    arrays to lists), or of another such function.  id -> (function, why)."""
+    conv = [f for f in ctx.tree.funcs if not isinstance(f.node, ast.Lambda) and f.module.name == "context" and any(isinstance(r, ast.Return) and isinstance(r.value, ast.Constant) and r.value.value is None and any(pol and ("UNDEFINED" in norm(t) or "NULL" in norm(t)) for t, pol in guards_of(r, f.node)) for r in f.own_nodes()) and any(isinstance(r, ast.Return) and isinstance(r.value, (ast.ListComp, ast.List, ast.Dict, ast.DictComp)) for r in f.own_nodes())]
+    out: Dict[int, Tuple[Func, str]] = {id(f): (f, "the JS-to-Python converter") for f in conv}
+    changed = True
+    while changed:
+        changed = False
+        for f in ctx.tree.funcs:
+            if isinstance(f.node, ast.Lambda) or id(f) in out or f.module.name != "context":
+                continue
+            for r in f.own_nodes():
+                if isinstance(r, ast.Return) and isinstance(r.value, ast.Call):
+                    cs = ctx.cg.site_of_call.get(id(r.value))
+                    if cs is not None and cs.kind == "resolved" and cs.targets and all(id(t) in out for t in cs.targets):
+                        out[id(f)] = (f, f"returns {short(r.value, 40)}")
+                        changed = True
+                        break
+    return out
+
+
+def rule_embedder_values_stay_outside(ctx, rep, rid: str) -> None:
+    """Context.eval/get hand Python lists, dicts and None to the embedder.  A function that scripts can call must not
+    return (or store) such a value: inside the script it is an object of no JavaScript type."""
+    rep.rule(rid, "no function that script code can reach returns the result of the embedder-side API (a function whose result went through the JS-to-Python converter) unless it is converted back: Python lists, dicts and None are not JavaScript values", floor=1)
+    pv = python_valued_functions(ctx)
+    if not pv:
+        raise AnalysisError(f"{rid}: the JS-to-Python converter was not recognised")
+    sr = ctx.facts.script_reachable()
+    to_js = {f.name for f in ctx.tree.funcs if f.name in ("_to_js",)}
+    n = 0
+    for f in ctx.tree.funcs:
+        if isinstance(f.node, ast.Lambda) or id(f) not in sr:
+            continue
+        if f.cls is not None and f.cls.name == "Context" and f.parent is None and (not f.name.startswith("_") or pv.get(id(f), (None, ""))[1] == "the JS-to-Python converter"):
+            continue  # the embedder's own entry points and the converter: their result leaves the engine
+        for c in f.own_nodes():
+            if not isinstance(c, ast.Call):
+                continue
+            cs = ctx.cg.site_of_call.get(id(c))
+            if cs is None or cs.kind != "resolved" or not cs.targets or not all(id(t) in pv for t in cs.targets):
+                continue  # only calls whose callee is known (a receiver of unknown type with a method of the same name is not one)
+            n += 1
+            key = f"{f.qual}:{short(c, 40)}"
+            p = getattr(c, "_parent", None)
+            wrapped = isinstance(p, ast.Call) and isinstance(p.func, ast.Attribute) and p.func.attr in to_js
+            discarded = isinstance(p, ast.Expr)
+            if wrapped or discarded:
+                rep.ok(rid, key, {"result": "converted back" if wrapped else "discarded"})
+            else:
+                tgt = next(t for t in cs.targets if id(t) in pv)
+                rep.bad(rid, key, f"{f.qual}, which script code can reach, uses the result of {tgt.qual} ({pv[id(tgt)][1]}): that value was converted for the embedder, so the script receives Python lists, dicts and None where it expects arrays, objects and null (typeof says 'undefined', property reads give undefined)", f"{f.module.rel}:{c.lineno}")
+    rep.ok(rid, "embedder-api", {"python_valued": sorted(f.qual for f, _ in pv.values()), "script_reachable_uses": n})
